@@ -365,6 +365,15 @@ def materialise(spec):
     p = spec.get("p") or {}
     if p.get("icode_prob") and random.Random(spec["seed"] + 17).random() < p["icode_prob"]:
         apply_icodes(out, random.Random(spec["seed"] + 18))
+    r19 = random.Random(spec["seed"] + 19)
+    if r19.random() < p.get("big_serial_prob", 0.15) and "items" in out:
+        # serial numbers of a large structure: HETATM serials >= 10000 touch the record name (HETATM10000), the
+        # counter passes 99999
+        natoms = sum(1 for it in out["items"] if isinstance(it, dict))
+        start = r19.choice([9990, max(1, 10000 - natoms // 2), 10000, 99999 - natoms // 2, 54321])
+        pdbfmt.renumber(out["items"], start)
+        out["text"] = pdbfmt.to_text(out["items"])
+        out.setdefault("meta", {})["serial_start"] = start
     return out
 
 
